@@ -260,6 +260,7 @@ func localClosures(pkgs []*packages.Package) map[*types.Var]*localClosure {
 			continue
 		}
 		callFun := map[*ast.Ident]bool{}
+		marker := map[*ast.Ident]bool{} // `_ = name` written by an earlier round to keep the variable used
 		for _, f := range p.Syntax {
 			ast.Inspect(f, func(n ast.Node) bool {
 				switch x := n.(type) {
@@ -268,6 +269,13 @@ func localClosures(pkgs []*packages.Package) map[*types.Var]*localClosure {
 						callFun[id] = true
 					}
 				case *ast.AssignStmt:
+					if x.Tok == token.ASSIGN && len(x.Lhs) == 1 && len(x.Rhs) == 1 {
+						if l, ok := x.Lhs[0].(*ast.Ident); ok && l.Name == "_" {
+							if r, ok := x.Rhs[0].(*ast.Ident); ok {
+								marker[r] = true
+							}
+						}
+					}
 					if x.Tok == token.DEFINE && len(x.Lhs) == 1 && len(x.Rhs) == 1 {
 						if id, ok := x.Lhs[0].(*ast.Ident); ok && !strings.HasPrefix(id.Name, "__") {
 							if fl, ok := x.Rhs[0].(*ast.FuncLit); ok {
@@ -288,6 +296,9 @@ func localClosures(pkgs []*packages.Package) map[*types.Var]*localClosure {
 			}
 			lc := out[v]
 			if lc == nil {
+				continue
+			}
+			if marker[id] {
 				continue
 			}
 			if !callFun[id] || (id.Pos() >= lc.lit.Pos() && id.Pos() < lc.lit.End()) {
@@ -1560,6 +1571,7 @@ func normalise(repo string, vocab map[string]bool) (*normInfo, error) {
 		}
 		// parameters of already expanded helpers that are bound to a function literal: `__pN_f := (func() T)(func() T {…})`
 		bound := map[*types.Var]string{}
+		boundExpr := map[*types.Var]ast.Expr{}
 		for _, p := range pkgs {
 			if !strings.HasPrefix(p.PkgPath, "github.com/jhalter/mobius") {
 				continue
@@ -1584,6 +1596,7 @@ func normalise(repo string, vocab map[string]bool) (*normInfo, error) {
 							N.litOf[v] = fl
 						} else if v != nil && isFuncValue(p, r) {
 							bound[v] = N.text(r)
+							boundExpr[v] = r
 						}
 					}
 					return true
@@ -1595,6 +1608,41 @@ func normalise(repo string, vocab map[string]bool) (*normInfo, error) {
 		for _, p := range pkgs {
 			if len(bound) == 0 || !strings.HasPrefix(p.PkgPath, "github.com/jhalter/mobius") {
 				continue
+			}
+			// a binding whose variable is only ever called (besides its `_ = v` marker) is emptied once the calls are
+			// spelled with the function itself, so that the function is not kept alive by the binding alone
+			callUse := map[*ast.Ident]bool{}
+			for _, f := range p.Syntax {
+				ast.Inspect(f, func(n ast.Node) bool {
+					if c, ok := n.(*ast.CallExpr); ok {
+						if id, ok := c.Fun.(*ast.Ident); ok {
+							callUse[id] = true
+						}
+					}
+					return true
+				})
+			}
+			other := map[*types.Var]int{}
+			calls := map[*types.Var]int{}
+			for id, o := range p.TypesInfo.Uses {
+				if v, ok := o.(*types.Var); ok && boundExpr[v] != nil {
+					if callUse[id] {
+						calls[v]++
+					} else {
+						other[v]++
+					}
+				}
+			}
+			for v, e := range boundExpr {
+				// only once no call of the variable is left (a literal expanded in the same round may still carry one)
+				if v.Pkg() == p.Types && other[v] <= 1 && calls[v] == 0 {
+					if _, isNil := e.(*ast.Ident); isNil && e.(*ast.Ident).Name == "nil" {
+						continue
+					}
+					fn := N.fset.Position(e.Pos()).Filename
+					so, eo := N.fset.Position(e.Pos()).Offset, N.fset.Position(e.End()).Offset
+					N.edits[fn] = append(N.edits[fn], textEdit{so, eo - so, "nil"})
+				}
 			}
 			for _, f := range p.Syntax {
 				ast.Inspect(f, func(n ast.Node) bool {
@@ -1674,6 +1722,24 @@ func normalise(repo string, vocab map[string]bool) (*normInfo, error) {
 							lits(x.Cond)
 							walkList(x.Body.List)
 							if x.Else != nil {
+								// `else if init; cond {…}` with a call to expand in its header: the else branch gets a
+								// block of its own (`else { <expansion>; if … }`), which changes nothing
+								if ei, isIf := x.Else.(*ast.IfStmt); isIf {
+									N.cur, N.next, N.lastOfBody = ei, nil, false
+									if call, dd, recv := N.firstEligibleCall(p, ei); call != nil {
+										fn := N.fset.Position(ei.Pos()).Filename
+										so, eo := N.fset.Position(ei.Pos()).Offset, N.fset.Position(ei.End()).Offset
+										mark := len(N.edits[fn])
+										N.edits[fn] = append(N.edits[fn], textEdit{so, 0, "{\n"})
+										if why := N.expand(p, f, fd, ei, call, dd, recv); why == "" {
+											N.edits[fn] = append(N.edits[fn], textEdit{eo, 0, "\n}"})
+											return
+										} else {
+											N.edits[fn] = N.edits[fn][:mark]
+											left[dd.name+" in "+declName(p, fd)+": "+why] = true
+										}
+									}
+								}
 								walkStmt(x.Else)
 							}
 						case *ast.ForStmt:
@@ -1736,7 +1802,11 @@ func normalise(repo string, vocab map[string]bool) (*normInfo, error) {
 			fn := N.fset.Position(lc.def.Pos()).Filename
 			so, eo := N.fset.Position(lc.def.Pos()).Offset, N.fset.Position(lc.def.End()).Offset
 			if lc.expanded == lc.uses {
-				// every call was expanded: the closure itself goes
+				// every call was expanded: the closure itself goes (with the marker an earlier round left behind it)
+				marker := "; _ = " + lc.v.Name()
+				if src := N.src(fn); bytes.HasPrefix(src[eo:], []byte(marker)) {
+					eo += len(marker)
+				}
 				N.edits[fn] = append(N.edits[fn], textEdit{so, eo - so, "{}"})
 			} else {
 				marker := "; _ = " + lc.v.Name()
